@@ -46,7 +46,9 @@ Poison == cfg.nS + 1
 (* ---------------- advertised spaces at stack level i (0 = base environment) -------------- *)
 RECURSIVE ASpace(_)
 ASpace(i) ==
-  IF i = 0 THEN [kind |-> cfg.akind, lo |-> cfg.alo, hi |-> cfg.ahi]
+  IF i = 0 THEN [kind |-> cfg.akind, lo |-> cfg.alo,
+                 \* "aopen": the declared base action space is bounded below only (the action grid still ends at ahi)
+                 hi |-> IF "aopen" \in DOMAIN cfg /\ cfg.aopen THEN INF ELSE cfg.ahi]
   ELSE LET in == ASpace(i - 1) w == W(i) IN
        CASE w.kind = "ClipAction"      -> [kind |-> "box", lo |-> -INF, hi |-> INF]
          [] w.kind = "RescaleAction"   -> [kind |-> "box", lo |-> w.lo, hi |-> w.hi]
